@@ -21,7 +21,7 @@ package cluster
 // Surroundings not verified here; assumed not to touch the store map: store-limit bookkeeping, hot statistics,
 // cluster-version recomputation, version / label validation (deterministic checks).
 //@ opaque (*RaftCluster).SetStoreLimit, (*RaftCluster).RemoveStoreLimit, (*RaftCluster).AddStoreLimit, (*RaftCluster).onStoreVersionChangeLocked, (*RaftCluster).checkStoreVersion, (*RaftCluster).checkStoreLabels
-//@ opaque github.com/tikv/pd/server/statistics::(*StoresStats).GetOrCreateRollingStoreStats, github.com/tikv/pd/server/statistics::(*StoresStats).RemoveRollingStoreStats, github.com/tikv/pd/server/core::(*StoreInfo).MergeLabels
+//@ opaque github.com/tikv/pd/server/statistics::(*StoresStats).GetOrCreateRollingStoreStats, github.com/tikv/pd/server/statistics::(*StoresStats).RemoveRollingStoreStats
 
 //@ pure storeAt(c *RaftCluster, id uint64) = c.core.Stores.stores[id]
 //@ pure sstate(s *core.StoreInfo) = s.meta.State
